@@ -104,7 +104,7 @@ Inductive resp :=
 | RTtl (ttl : N)
 | RGet (v : option (value * ts))
 | RPairs (ps : list pair)
-| RLocks (ls : list (key * key * ts))
+| RLocks (ls : list (key * lock))     (* ScanLock: key + its lock (primary, start ts, type, ttl, for-update ts are reported; min_commit_ts is not) *)
 | RMvcc (k : key) (ks : kstate)      (* MvccGetByStartTs: the key found (0 = none) and all its records *)
 | RPanic.                            (* the mock panics (ForceLock result count) *)
 
@@ -585,7 +585,7 @@ Definition step (st : store) (c : cmd) : store * resp :=
   | BatchResolveLock s e infos => (map_range st s e (batch_resolve_key infos), RErr None)
   | ScanLock s e max =>
     (st, RLocks (flat_map (fun kv => match ks_lock (snd kv) with
-                                     | Some l => if l_start l <=? max then [(fst kv, l_primary l, l_start l)] else []
+                                     | Some l => if l_start l <=? max then [(fst kv, l)] else []
                                      | None => []
                                      end) (keys_in_range st s e)))
   | GC s e sp =>
